@@ -103,6 +103,7 @@ func checkDefs() map[string]*CheckDef {
 					rh("self-candidate", "VerifC06", map[string]int{"K": 1, "PRESET": 0}, "start ok"),
 					mc("failing-callbacks-terminate", "VerifC09MC", map[string]int{"N": 2, "POINTS": 5, "FAULTS": 2}, "fault injected"),
 					rh("slice-targets-sharing-an-address", "VerifC06", map[string]int{"K": 2, "PORDER": 0, "PRESET": 0}, "start ok", "several candidates"),
+					rh("components-sharing-an-address-on-a-cycle", "VerifC06FirstField", nil, "component at the holder's address"),
 					{Name: "ring-of-70", Pkg: fac, Entry: "VerifC02Ring", Params: map[string]int{"RING": 70}, MustCover: []string{"long cycle resolved"}, Opts: ExecOpts{Termination: true, MaxSteps: 5000000, MaxDepth: 4000}},
 				}
 				if tier == "thorough" {
@@ -152,6 +153,7 @@ func checkDefs() map[string]*CheckDef {
 			Runs: func(tier string) []RunSpec {
 				r := []RunSpec{
 					mc("mc-n2-lazy", "VerifC05", map[string]int{"N": 2, "POINTS": 7, "LAZY": 1}, "start ok", "acyclic edge", "lazy component not needed"),
+					mc("lifecycle-complete-after-a-repeated-attempt", "VerifC04B", map[string]int{"N": 2, "POINTS": 1, "FAULTS": 1, "LOOKUPS": 2, "LAZY": 1}, "start failed", "lookup after failure reports an error"),
 					{Name: "substitute-before-initialization", Pkg: fac, Entry: "VerifC05Substitute", MustCover: []string{"component substituted before initialization"}},
 					mc("mc-n3-single-lazy", "VerifC05", map[string]int{"N": 3, "POINTS": 1, "LAZY": 1}, "start ok", "acyclic edge"),
 					mc("lookups-and-declining-processor", "VerifC05", map[string]int{"N": 2, "POINTS": 5, "LAZY": 1, "LOOKUP": 1, "PROC0": 1}, "start ok", "acyclic edge"),
@@ -172,11 +174,13 @@ func checkDefs() map[string]*CheckDef {
 			Runs: func(tier string) []RunSpec {
 				return []RunSpec{
 					{Name: "run", Pkg: app, Entry: "VerifC13", Params: map[string]int{"N": tierPick(tier, 3, 4), "FAULTS": 1}, MustCover: []string{"all runners ok", "runner failed", "start-up fault", "runner with a Priority marker but no Order"}},
+					{Name: "shared-sorter-many-participants", Pkg: ioc + "/configure", Entry: "VerifC15ManyLoaders", MustCover: []string{"many loaders"}},
+					mc("eager-components-initialised", "VerifC05", map[string]int{"N": 2, "POINTS": 7, "LAZY": 1}, "start ok"),
 					{Name: "integration", Pkg: app, Entry: "VerifAppIntegration", Params: map[string]int{"N": tierPick(tier, 3, 4), "R": 2}, MustCover: []string{"start ok", "component init fails", "lazy runner", "initialization of a lazy runner fails", "eager component that is only a factory post-processor"}, Opts: ExecOpts{Sched: "seq", PermuteRange: tier == "thorough", PermuteCoarse: true}},
 				}
 			},
 			LevelText: "Bounded symbolic model checking of the real App.run/initConfiguration/initFactory/refresh/callRunners with a logging stub factory: for every multiset of up to N runners (three classes, unconstrained 64-bit Order), every choice of failing runner and every failing start-up phase: no runner before refresh finished, each at most once and in the ordering contract's sequence, exactly once if none fails, nothing after a failing runner, run returns an error exactly when something failed.",
-			LevelNote: "Bound N runners (quick 3, thorough 4). That Refresh returning nil means every eager component is initialised is C05, composed informally. App.Run's option handling and initiate() are outside (whole-program).",
+			LevelNote: "Bound N runners (quick 3, thorough 4). That Refresh returning nil means every eager component is initialised is C05: its mini-container run is included here as run eager-components-initialised; the sorter shared with the loaders is exercised beyond the insertion-sort threshold by run shared-sorter-many-participants (loaders as participants). App.Run's option handling and initiate() are outside (whole-program).",
 			Technique: techDefault, DesignRef: "DESIGN.md §3 C13"},
 		&CheckDef{ID: "C14", Title: "Close",
 			Runs: func(tier string) []RunSpec {
@@ -197,7 +201,7 @@ func checkDefs() map[string]*CheckDef {
 					{Name: "load", Pkg: ioc + "/configure", Entry: "VerifC15Load", Params: map[string]int{"N": tierPick(tier, 3, 4)}, MustCover: []string{"several loaders", "loader failed"}},
 					{Name: "many-loaders", Pkg: ioc + "/configure", Entry: "VerifC15ManyLoaders", MustCover: []string{"many loaders"}},
 					{Name: "conflicting-shapes", Pkg: ioc + "/configure", Entry: "VerifC15Conflicts", MustCover: []string{"later map replaces earlier scalar"}},
-					{Name: "merge-real-viper", Pkg: ioc + "/configure", Entry: "VerifC15Merge", Params: map[string]int{"N": tierPick(tier, 2, 3)}, MustCover: []string{"merged", "overlapping documents merged", "subtree replaced at run time", "command-line arguments loaded", "source added after a first read"}},
+					{Name: "merge-real-viper", Pkg: ioc + "/configure", Entry: "VerifC15Merge", Params: map[string]int{"N": tierPick(tier, 2, 3)}, MustCover: []string{"merged", "overlapping documents merged", "subtree replaced at run time", "source added after the command-line loader", "command-line arguments loaded", "source added after a first read"}},
 				}
 			},
 			LevelText: "Bounded symbolic model checking of the real app.SetConfig/AddConfigLoader/SetConfigLoader options and configure.AddLoaders/SetLoaders/Initialize/loadConfigure with a recording binder: for every sequence of up to K options and every set of up to N loaders (three classes, unconstrained Order, empty or non-empty payload, one failing): every document of every source that was added reaches the binder exactly once, priority-ordered (file) loaders first, unordered ones in the order added; a failing loader fails Initialize; and, with the real viper behind the real ViperBinder, the effective configuration of up to N overlapping YAML documents is their deep merge in loader order (last wins, nothing lost, nothing else contributes).",
@@ -290,6 +294,7 @@ func checkDefs() map[string]*CheckDef {
 					{Name: "integration", Pkg: app, Entry: "VerifAppIntegration", Params: map[string]int{"N": 2, "R": 2}, MustCover: []string{"component init fails", "initialization of a lazy runner fails"}, Opts: ExecOpts{Sched: "seq"}},
 					{Name: "failing-definition-scanners", Pkg: fac, Entry: "VerifC20Scan", Params: map[string]int{"N": 3}, MustCover: []string{"several scanners fail at the same time"}, Opts: ExecOpts{Sched: "join", Races: true}},
 					rh("declining-user-processor", "VerifC06", map[string]int{"K": 1, "PORDER": 0, "PROC0": 1, "PRESET": 0}, "start ok", "start failed"),
+					{Name: "optional-validated-struct-pointer", Pkg: prc, Entry: "VerifC18ValidateStruct", MustCover: []string{"validated struct pointer left nil"}},
 					{Name: "configuration-values", Pkg: prc, Entry: "VerifC09Values", MustCover: []string{"required value missing", "optional value missing", "value present"}},
 					rh("optional-qualified-point", "VerifC09OptionalQualified", map[string]int{"K": 2}, "optional qualified point without a match", "required qualified point without a match"),
 					{Name: "early-ordered-processor", Pkg: app, Entry: "VerifAppGraph", Params: map[string]int{"FIXED": 1, "EARLYPROC": 1}, MustCover: []string{"start ok"}, Opts: ExecOpts{Sched: "seq", Termination: true, MaxSteps: 3000000}},
@@ -336,6 +341,7 @@ func checkDefs() map[string]*CheckDef {
 					{Name: "expression-data-flow", Pkg: prc, Entry: "VerifC18Expr", MustCover: []string{"evaluated", "literal text before the expression", "placeholder nested in a placeholder inside the expression"}},
 					{Name: "numeric-expression-family", Pkg: prc, Entry: "VerifC18ExprNumbers", MustCover: []string{"numeric expression evaluated", "boolean result"}},
 					{Name: "validation-glue", Pkg: prc, Entry: "VerifC18Validate", Params: map[string]int{"N": tierPick(tier, 3, 4)}, MustCover: []string{"constraint violated", "constraint satisfied", "validated value bound by prefix", "undefined validation rule"}},
+					{Name: "empty-expression-result", Pkg: prc, Entry: "VerifC18EmptyResult", MustCover: []string{"expression with an empty result"}},
 					{Name: "pointer-validation", Pkg: prc, Entry: "VerifC18ValidatePointer", MustCover: []string{"pointer constraint violated", "pointer constraint satisfied"}},
 					{Name: "several-validated-fields", Pkg: prc, Entry: "VerifC18SeveralValidated", MustCover: []string{"one of several validated fields violates its constraint"}},
 					{Name: "same-tag-two-configurations", Pkg: prc, Entry: "VerifC18TwoConfigurations", MustCover: []string{"same tag under two configurations"}},
@@ -350,7 +356,7 @@ func checkDefs() map[string]*CheckDef {
 	defs = append(defs,
 		&CheckDef{ID: "C11", Title: "Tag scanning through embedded structs, frame condition",
 			Runs: func(tier string) []RunSpec {
-				return []RunSpec{{Name: "shapes", Pkg: fac, Entry: "VerifC11", Params: map[string]int{"SHAPES": 10}, MustCover: []string{"see-through embedding", "opaque embedding", "same type embedded twice", "same-named embedded types"}, Opts: ExecOpts{PermuteRange: tier == "thorough"}},
+				return []RunSpec{{Name: "shapes", Pkg: fac, Entry: "VerifC11", Params: map[string]int{"SHAPES": 11}, MustCover: []string{"see-through embedding", "opaque embedding", "same type embedded twice", "same-named embedded types", "embedded struct declaring a configuration prefix"}, Opts: ExecOpts{PermuteRange: tier == "thorough"}},
 					{Name: "custom-node-type", Pkg: prc, Entry: "VerifC11CustomNode", MustCover: []string{"custom processor sharing a built-in node type"}},
 					{Name: "nil-config-pointer", Pkg: prc, Entry: "VerifC11NilConfigPointer", MustCover: []string{"nil configuration-properties pointers"}}}
 			},
